@@ -7,6 +7,15 @@ def dispatch (op : String) (args : List Sx) : String :=
   | "enc" => opEnc args
   | "dec" => opDec args
   | "spec" => opSpec args
+  | "prep" => opPrep args
+  | "prepseq" => opPrepSeq args
+  | "xenc" => opXenc args
+  | "xdec" => opXdec args
+  | "xparse" => opXparse args
+  | "cops" => opCops args
+  | "jenc" => opJEnc args
+  | "jdec" => opJDec args
+  | "jparse" => opJParse args
   | "project" => opProject args
   | "c07" => opC07 args
   | "rtder" => opRtDer args
